@@ -202,6 +202,25 @@ async def no_barrier_shutdown(mpc, ctx):
         mpc.options.no_barrier = saved
 
 
+@program('restart_threshold', ms=(3,), expect=lambda m: [('lt1', 1), ('bits1', True), ('lt2', 1), ('eq2', 0), ('bits2', True)])
+async def restart_threshold(mpc, ctx):
+    """Two runs in one process with the threshold changed in between (Runtime.threshold setter): keys, PRFs and sharings of
+    the second run must all belong to the new threshold."""
+    await mpc.start()
+    secint = mpc.SecInt(8)
+    a = mpc.input(secint(5), senders=0)
+    ctx.out('lt1', await mpc.output(a < 7))
+    ctx.out('bits1', all(b in (0, 1) for b in await mpc.output(mpc.random_bits(secint, 3))))
+    await mpc.shutdown()
+    mpc.threshold = 0
+    await mpc.start()
+    b = mpc.input(secint(3), senders=0)
+    ctx.out('lt2', await mpc.output(b < 7))
+    ctx.out('eq2', await mpc.output(b == 4))
+    ctx.out('bits2', all(x in (0, 1) for x in await mpc.output(mpc.random_bits(secint, 3))))
+    await mpc.shutdown()
+
+
 @program('barrier_nested', ms=(2, 3), expect=None, tags=('barrier',))
 async def barrier_nested(mpc, ctx):
     await mpc.start()
